@@ -454,3 +454,123 @@ def read_fake_log(logdir):
                 env[k] = v
         out.append({'argv': argv, 'cwd': rd('cwd').decode('utf-8', 'surrogateescape').rstrip('\n'), 'env': env})
     return out
+
+
+# ------------------------------------------------------------ gauge adapters
+TIME_FORMAT = '"max rss (kb): %M\nwall-time (secounds): %e\n"'
+PERF_OUT = ' --output=profile.perf '
+PERF_IN = ' --input=profile.perf '
+PERF_RECORD_DEFAULT = 'record -g -F 9999 --call-graph lbr'      # rebench-schema.yml
+PERF_REPORT_DEFAULT = 'report -g graph --no-children --stdio'
+
+CUSTOM_ADAPTER = ('from rebench.interop.rebench_log_adapter import RebenchLogAdapter\n\n\n'
+                  'class MyAdapter(RebenchLogAdapter):\n'
+                  '    """inherits the default acquire_command"""\n')
+
+
+def gen_adapter(rng):
+    x = rng.random()
+    if x < 0.40:
+        return {'kind': 'plain', 'name': 'RebenchLog'}
+    if x < 0.50:
+        return {'kind': 'plain', 'name': 'TimeManual'}
+    if x < 0.60:
+        return {'kind': 'plain', 'name': 'custom'}
+    if x < 0.85:
+        return {'kind': 'time', 'rc1': rng.choice([0, 0, 1, 1, 2, 127, None]), 'rc2': rng.choice([0, 0, 1, 2, None])}
+    return {'kind': 'perf', 'record_args': rng.choice([None, 'record -g', 'record -F 100 -e cycles']),
+            'report_args': rng.choice([None, 'report --stdio'])}
+
+
+def apply_adapter(cfg, info, adapter, wd):
+    """configure the generated configuration for the chosen gauge adapter"""
+    su = cfg['benchmark_suites'][info['suite']]
+    if adapter['kind'] == 'time':
+        su['gauge_adapter'] = 'Time'
+    elif adapter['kind'] == 'perf':
+        cfg['experiments']['T']['action'] = 'profile'
+        p = {}
+        if adapter['record_args'] is not None:
+            p['record_args'] = adapter['record_args']
+        if adapter['report_args'] is not None:
+            p['report_args'] = adapter['report_args']
+        cfg['executors'][info['executor']]['profiler'] = {'perf': p}
+    elif adapter['name'] == 'custom':
+        with open(os.path.join(wd, 'my_adapter.py'), 'w') as f:
+            f.write(CUSTOM_ADAPTER)
+        su['gauge_adapter'] = {'MyAdapter': './my_adapter.py'}
+    else:
+        su['gauge_adapter'] = adapter['name']
+
+
+def spec_adapter_prefix(adapter):
+    """docs / interop: what the adapter puts in front of the configured command"""
+    if adapter['kind'] == 'plain':
+        return ''
+    if adapter['kind'] == 'time':
+        rc1, rc2 = adapter['rc1'], adapter['rc2']
+        if rc1 == 0:
+            return '/usr/bin/time -f ' + TIME_FORMAT + ' '
+        if rc1 in (1, None) and rc2 == 0:
+            return '/opt/local/bin/gtime -f ' + TIME_FORMAT + ' '
+        return '/usr/bin/time -p '
+    rec = PERF_RECORD_DEFAULT if adapter['record_args'] is None else adapter['record_args']
+    return 'perf ' + rec + PERF_OUT + ' '
+
+
+def spec_report_text(adapter):
+    rep = PERF_REPORT_DEFAULT if adapter['report_args'] is None else adapter['report_args']
+    return 'perf ' + rep + PERF_IN
+
+
+def formatted_time(adapter):
+    return adapter['kind'] == 'time' and (adapter['rc1'] == 0 or (adapter['rc1'] in (1, None) and adapter['rc2'] == 0))
+
+
+def benchmark_output(adapter):
+    if adapter['kind'] == 'time' or adapter.get('name') == 'TimeManual':
+        if formatted_time(adapter):
+            return 'max rss (kb): 1234\nwall-time (secounds): 0.01\n'
+        return 'real 0.01\nuser 0.00\nsys 0.00\n'
+    return 'B: iterations=1 runtime: 7ms\n'
+
+
+def perf_report_output():
+    p = os.path.join(lib.REPO, 'rebench', 'tests', 'perf', 'perf-small.report')
+    if os.path.exists(p):
+        return open(p).read()
+    return '    50.00%  bin  lib.so  [.] method\n'
+
+
+class _TimeProbe(object):
+    """stands in for the `subprocess` module inside rebench.interop.time_adapter: the two
+    availability probes of `/usr/bin/time -f` and `gtime -f` answer as scripted"""
+    PIPE = -1
+
+    def __init__(self, adapter, calls):
+        self.adapter = adapter
+        self.calls = calls
+
+    def call(self, cmd, **kw):
+        self.calls.append(list(cmd))
+        rc = self.adapter['rc1'] if cmd[0] == '/usr/bin/time' else self.adapter['rc2']
+        if rc is None:
+            raise OSError(2, 'No such file or directory', cmd[0])
+        return rc
+
+
+@contextlib.contextmanager
+def time_world(adapter, calls):
+    from rebench.interop import time_adapter as ta
+    saved = (ta.subprocess, ta.TimeAdapter._completed_time_availability_check,
+             ta.TimeAdapter._use_formatted_time, ta.TimeAdapter._time_bin)
+    ta.subprocess = _TimeProbe(adapter, calls) if adapter['kind'] == 'time' else ta.subprocess
+    ta.TimeAdapter._completed_time_availability_check = False
+    ta.TimeAdapter._use_formatted_time = False
+    ta.TimeAdapter._time_bin = None
+    try:
+        yield
+    finally:
+        ta.subprocess = saved[0]
+        (ta.TimeAdapter._completed_time_availability_check, ta.TimeAdapter._use_formatted_time,
+         ta.TimeAdapter._time_bin) = saved[1:]
